@@ -106,8 +106,8 @@ func runRead(c Case) {
 	case "timeout":
 		sc.Fail = vrt.ErrTimeout
 	}
-	var failAt, errAt time.Duration
-	gotErr := ""
+	var failAt, errAt, err2At time.Duration
+	gotErr, gotErr2 := "", "(package)"
 	o, x := rx.Deliver(vrt.Config{}, sc, func(conn *tds.Conn, ch *tds.Channel, pipe *vrt.Pipe, o *rx.Obs) {
 		ctx, cancel := vrt.WithTimeout(context.Background(), 10*time.Hour)
 		defer cancel()
@@ -119,6 +119,14 @@ func runRead(c Case) {
 			if err != nil {
 				gotErr = err.Error()
 				errAt = vrt.Now()
+				// a second receive after the failure must not block either
+				if c.Offset < len(stream) {
+					_, err2 := ch.NextPackage(ctx, true)
+					err2At = vrt.Now()
+					if err2 != nil {
+						gotErr2 = err2.Error()
+					}
+				}
 				break
 			}
 			d := rx.LibDesc(p)
@@ -212,6 +220,10 @@ func runRead(c Case) {
 	}
 	if errAt > time.Duration(readTimeout)*time.Second {
 		h.Violate("C14|error-later-than-read-timeout|"+cls, fmt.Sprintf("%s: error %q only after %v of virtual time (read timeout %ds)", ctxt, gotErr, errAt, readTimeout), c)
+		return
+	}
+	if strings.Contains(gotErr2, "passed context is closed") || err2At-errAt > time.Duration(readTimeout)*time.Second {
+		h.Violate("C14|second-receive-blocks|"+cls, fmt.Sprintf("%s: the first receive reported %q at %v; the next receive returned %q only at %v (read timeout %ds)", ctxt, gotErr, errAt, gotErr2, err2At, readTimeout), c)
 		return
 	}
 	h.Outcome(fmt.Sprintf("prefix+error-%s@%s", pos, errAt))
